@@ -728,7 +728,7 @@ int main(int argc, char **argv)
         return 2;
     }
     Sink sink(a);
-    long total = a.thorough() ? 60000 : 6000;  // same per-case sizes in both tiers
+    long total = a.thorough() ? 45000 : 6000;  // same per-case sizes in both tiers
     total = (long)(total * a.scale);
     for (long c = 0; c < total; ++c)
     {
